@@ -30,4 +30,9 @@ RULE = ("trace: as C01, with longer client histories; non-trivial = at least one
 LEGS = [
     {"name": "cluster", "harness": "cluster", "model": "cluster", "n_quick": 52, "n_thorough": 4000,
      "corpus": "corpus/cluster", "timeout": 900, "timeout_thorough": 6000, "args": ["-mode", "c02"]},
+    # client write path (harness and model owned by C20; theorem c02_write_sent_at_most_once): the real write batch retry
+    # loop over the real streamWrapper over scripted in-memory streams (every status code, before / after the request is
+    # on the wire); compared with the extracted write_path, verdict write:resent-after-send
+    {"name": "client-wsend", "harness": "client", "model": "client", "n_quick": 40, "n_thorough": 1500,
+     "corpus": "corpus/client", "args": ["-mode", "wsend"], "timeout": 600, "timeout_thorough": 3000},
 ]
